@@ -76,6 +76,7 @@ def _check(T, v, local_step):
         assert not (lo <= v <= hi), (T.__name__, v, "in range but refused")
         return
     assert isinstance(p, DPTArray) and len(p.value) == T.payload_length, (T.__name__, v)
+    assert all(isinstance(o, int) and 0 <= o <= 255 for o in p.value), (T.__name__, v, p.value, "not octets")
     d = T.from_knx(p)
     st = local_step(p)
     assert abs(d - v) < st * (1 + 1e-9) + 1e-12, (T.__name__, v, d, st)
